@@ -492,8 +492,8 @@ theorem walk_of_cut {g : Cfg} {a c : Nat} :
 
 /-! ### polarity of validator conditions -/
 
-theorem polarity_core (arg : VExpr) : ∀ (e : VExpr) (pol : Bool),
-    isPredTo arg e = true → isValidatorCond e pol = true →
+theorem polarity_core (mem : Bool) (arg : VExpr) : ∀ (e : VExpr) (pol : Bool),
+    isPredToG mem arg e = true → isValidatorCond e pol = true →
     ∃ k, IsValCall k e ∧ ∀ ρ : Env, verdict ρ e = some (pol == ρ k)
   | .call id pred isVal args, pol, _, hv => by
     simp only [isValidatorCond, Bool.and_eq_true] at hv
@@ -502,23 +502,23 @@ theorem polarity_core (arg : VExpr) : ∀ (e : VExpr) (pol : Bool),
   | .nilCheck _ x isEq, pol, hp, hv => by
     simp only [isValidatorCond, Bool.and_eq_true, beq_iff_eq] at hv
     obtain ⟨rfl, hv⟩ := hv
-    have hp' : isPredTo arg x = true := by simpa [isPredTo] using hp
-    obtain ⟨k, hk, hρ⟩ := polarity_core arg x true hp' hv
+    have hp' : isPredToG mem arg x = true := by simpa [isPredToG] using hp
+    obtain ⟨k, hk, hρ⟩ := polarity_core mem arg x true hp' hv
     refine ⟨k, hk, fun ρ => ?_⟩
     simp only [verdict, hρ ρ, Option.map_some]
     cases pol <;> cases ρ k <;> rfl
   | .not _ x, pol, hp, hv => by
     simp only [isValidatorCond] at hv
-    have hp' : isPredTo arg x = true := by simpa [isPredTo] using hp
-    obtain ⟨k, hk, hρ⟩ := polarity_core arg x (!pol) hp' hv
+    have hp' : isPredToG mem arg x = true := by simpa [isPredToG] using hp
+    obtain ⟨k, hk, hρ⟩ := polarity_core mem arg x (!pol) hp' hv
     refine ⟨k, hk, fun ρ => ?_⟩
     simp only [verdict, hρ ρ, Option.map_some]
     cases pol <;> cases ρ k <;> rfl
   | .extract _ t isLast, pol, hp, hv => by
     simp only [isValidatorCond] at hv
-    simp only [isPredTo, Bool.and_eq_true] at hp
+    simp only [isPredToG, Bool.and_eq_true] at hp
     obtain ⟨rfl, hp'⟩ := hp
-    obtain ⟨k, hk, hρ⟩ := polarity_core arg t pol hp' hv
+    obtain ⟨k, hk, hρ⟩ := polarity_core mem arg t pol hp' hv
     exact ⟨k, hk, fun ρ => by simp [verdict, hρ ρ]⟩
   | .binOther _, _, _, hv => by simp [isValidatorCond] at hv
   | .load _ _, _, _, hv => by simp [isValidatorCond] at hv
@@ -552,5 +552,66 @@ theorem run_step_of_consec {g : Cfg} {tbl : CondTable} {a t : Nat} :
       simp only [List.map_cons, List.cons_append, List.cons.injEq] at hm
       obtain ⟨ρ, hmem, hstep⟩ := ih ((y, ρy) :: rest) r (by simpa using hm.2) hok.2
       exact ⟨ρ, List.mem_cons_of_mem _ hmem, hstep⟩
+
+/-! ### same data without the memory rules -/
+
+theorem sameDataReg_sound : ∀ (n : Nat) (a b : VExpr), sameDataG false n a b = true → SameReg a b := by
+  intro n
+  induction n with
+  | zero => intro a b h; simp [sameDataG] at h
+  | succ n ih =>
+    intro a b h
+    unfold sameDataG at h
+    by_cases hid : a.id = b.id
+    · exact .same hid
+    · simp only [hid, if_false, Bool.false_and, Bool.false_or, Bool.or_eq_true] at h
+      rcases h with h | h
+      · split at h
+        · exact .extract (ih _ _ h)
+        · cases h
+      · split at h
+        · exact .boxL (ih _ _ h)
+        · split at h
+          · exact .boxR (ih _ _ h)
+          · cases h
+
+theorem anyArg_reg {arg : VExpr} : ∀ (args : List VExpr), isPredToG.anyArg false arg args = true →
+    ∃ a ∈ args, SameReg a arg
+  | [], h => by simp [isPredToG.anyArg] at h
+  | a :: as, h => by
+    simp only [isPredToG.anyArg, Bool.or_eq_true] at h
+    rcases h with h | h
+    · exact ⟨a, by simp, sameDataReg_sound _ _ _ h⟩
+    · obtain ⟨x, hx, hs⟩ := anyArg_reg as h
+      exact ⟨x, List.mem_cons_of_mem _ hx, hs⟩
+
+theorem isPredToReg_tests (arg : VExpr) : ∀ e : VExpr, isPredToG false arg e = true → TestsArg arg e
+  | .call _ pred _ args, h => by
+    simp only [isPredToG, Bool.and_eq_true] at h
+    exact anyArg_reg args h.2
+  | .nilCheck _ x _, h => by
+    simp only [isPredToG] at h; exact isPredToReg_tests arg x h
+  | .not _ x, h => by
+    simp only [isPredToG] at h; exact isPredToReg_tests arg x h
+  | .extract _ t _, h => by
+    simp only [isPredToG, Bool.and_eq_true] at h; exact isPredToReg_tests arg t h.2
+  | .binOther _, h => by simp [isPredToG] at h
+  | .load _ _, h => by simp [isPredToG] at h
+  | .unOther _, h => by simp [isPredToG] at h
+  | .fieldAddr _ _, h => by simp [isPredToG] at h
+  | .makeIface _ _, h => by simp [isPredToG] at h
+  | .leaf _, h => by simp [isPredToG] at h
+
+theorem valCallOn_of {k : Nat} {arg : VExpr} : ∀ e : VExpr, IsValCall k e → TestsArg arg e → IsValCallOn k arg e
+  | .call _ _ _ _, h1, h2 => ⟨h1.1, h1.2, h2⟩
+  | .nilCheck _ x _, h1, h2 => valCallOn_of x h1 h2
+  | .not _ x, h1, h2 => valCallOn_of x h1 h2
+  | .extract _ t _, h1, h2 => valCallOn_of t h1 h2
+  | .binOther _, h1, _ => h1.elim
+  | .load _ _, h1, _ => h1.elim
+  | .unOther _, h1, _ => h1.elim
+  | .fieldAddr _ _, h1, _ => h1.elim
+  | .makeIface _ _, h1, _ => h1.elim
+  | .leaf _, h1, _ => h1.elim
 
 end Argot.PathCond
